@@ -131,7 +131,8 @@ func txid(i int) []byte {
 func redeemersItem(rc rcase) *vh.Item {
 	data := vh.U(0)
 	ex := vh.A(vh.U(10), vh.U(10))
-	if rc.RedeemerMap && (rc.Era == "conway" || rc.Era == "dijkstra") {
+	// Dijkstra accepts only the map form
+	if (rc.RedeemerMap && rc.Era == "conway") || rc.Era == "dijkstra" {
 		var kv []*vh.Item
 		for i := 0; i < rc.NRedeemers; i++ {
 			kv = append(kv, vh.A(vh.U(0), vh.U(uint64(i))), vh.A(data, ex))
